@@ -57,7 +57,11 @@ static void note_status(int r)
 /* one API call with symbolic arguments, checked against the reference state machine */
 static void one_call(reproc_t *p, bool full)
 {
+#if defined(VP_WHICH)
+  int which = full ? VP_WHICH : vp_choice(0, 9); /* jobs are split by the first call */
+#else
   int which = vp_choice(0, 9);
+#endif
   /* cheap subset: no wait / stop / poll */
   VP_ASSUME(full || (which != 1 && which != 4 && which != 8));
   bool null_handle = vp_choice(0, 7) == 0;
